@@ -24,7 +24,72 @@ pub const TAG_SCHEMA_FILE_REPLACED: &str = "schema-file-replaced";
 /// A source file without iso literals that was written since the start and then went through a
 /// compile that failed on a schema / extension syntax error is removed (deleted, renamed, moved).
 pub const TAG_REMOVED_SOURCE_REVERIFIED: &str = "removed-source-reverified";
-pub const ALL_TAGS: [&str; 3] = [TAG_NON_UTF8_SOURCE, TAG_SCHEMA_FILE_REPLACED, TAG_REMOVED_SOURCE_REVERIFIED];
+/// Within one window a file or folder is created (or is the target of a rename) and then it, or
+/// the folder it is in, is moved away: the event for the created path is processed when the path
+/// no longer exists.
+pub const TAG_PATH_VANISHED: &str = "path-vanished-before-processing";
+/// Within one window a file is renamed and the new name is then deleted: the debouncer delivers
+/// only the Remove of the new name.
+pub const TAG_RENAME_THEN_REMOVE: &str = "rename-then-remove";
+pub const ALL_TAGS: [&str; 5] =
+    [TAG_NON_UTF8_SOURCE, TAG_SCHEMA_FILE_REPLACED, TAG_REMOVED_SOURCE_REVERIFIED, TAG_PATH_VANISHED, TAG_RENAME_THEN_REMOVE];
+
+/// What the earlier actions of the current window did (for the two same-window findings).
+#[derive(Default, Clone, Debug)]
+pub struct WindowCtx {
+    /// paths that came into existence in this window (new files, new folders, rename targets)
+    pub fresh: BTreeSet<String>,
+    pub rename_targets: BTreeSet<String>,
+}
+
+impl WindowCtx {
+    pub fn tags(&self, op: &Op) -> Vec<&'static str> {
+        let mut tags = vec![];
+        match op {
+            Op::Mv { from, to } => {
+                let leaves_tree = !under(to, "src");
+                if self.fresh.iter().any(|f| (f != from && under(f, from)) || (f == from && leaves_tree)) {
+                    tags.push(TAG_PATH_VANISHED);
+                }
+            }
+            Op::Rm { path } | Op::Rmrf { path } => {
+                if self.rename_targets.iter().any(|t| under(t, path)) {
+                    tags.push(TAG_RENAME_THEN_REMOVE);
+                }
+            }
+            _ => {}
+        }
+        tags
+    }
+
+    pub fn record(&mut self, model_before: &Model, op: &Op) {
+        match op {
+            Op::Write { path, .. } if !model_before.files.contains_key(path) && under(path, "src") => {
+                self.fresh.insert(path.clone());
+            }
+            Op::Mkdir { path } if under(path, "src") => {
+                self.fresh.insert(path.clone());
+            }
+            Op::Mv { from, to } => {
+                // the names below a moved folder are new as well, but anything below a moved folder
+                // is kept out of the rest of the window anyway
+                self.fresh.retain(|f| !under(f, from));
+                self.rename_targets.retain(|f| !under(f, from));
+                if under(to, "src") {
+                    self.fresh.insert(to.clone());
+                    if under(from, "src") {
+                        self.rename_targets.insert(to.clone());
+                    }
+                }
+            }
+            Op::Rm { path } | Op::Rmrf { path } => {
+                self.fresh.retain(|f| !under(f, path));
+                self.rename_targets.retain(|f| !under(f, path));
+            }
+            _ => {}
+        }
+    }
+}
 /// Not a C20 finding: when one `Type.field` is defined in two source files, which definition wins
 /// (and hence every diagnostic) depends on HashMap iteration order and differs between two fresh
 /// compiles as well (C14's business). Such trees are kept out of the domain.
@@ -258,7 +323,8 @@ impl Model {
         }
     }
 
-    /// Is some `Type.field` defined (textually: `field Type.field`) in two different source files?
+    /// Is some `Type.field` defined (textually: `field Type.field`), or some entrypoint declared, in
+    /// two different source files?
     pub fn has_cross_file_duplicate(&self) -> bool {
         let mut seen: BTreeMap<String, &String> = BTreeMap::new();
         for (p, d) in &self.files {
@@ -266,8 +332,13 @@ impl Model {
                 continue;
             }
             let Ok(text) = std::str::from_utf8(d) else { continue };
-            for (i, _) in text.match_indices("field ") {
-                let name: String = text[i + 6..].chars().take_while(|c| c.is_ascii_alphanumeric() || *c == '.' || *c == '_').collect();
+            let occurrences = text
+                .match_indices("field ")
+                .map(|(i, _)| ("field", i + 6))
+                .chain(text.match_indices("entrypoint ").map(|(i, _)| ("entrypoint", i + 11)));
+            for (what, at) in occurrences {
+                let name: String = text[at..].chars().take_while(|c| c.is_ascii_alphanumeric() || *c == '.' || *c == '_').collect();
+                let name = format!("{what} {name}");
                 if name.contains('.') {
                     if let Some(other) = seen.get(&name) {
                         if *other != p {
@@ -346,6 +417,7 @@ pub fn resolve(a: &AScript, exclude: &BTreeSet<String>) -> (Script, ResolveStats
         // folders renamed/moved in this window (old and new path): notify re-registers their
         // watches asynchronously, events for anything below them are racy until the next barrier
         let mut moved_dirs: Vec<String> = vec![];
+        let mut ctx = WindowCtx::default();
         for aop in w {
             let drop = |why: &str, stats: &mut ResolveStats| {
                 *stats.dropped.entry(why.to_string()).or_insert(0) += 1;
@@ -473,7 +545,15 @@ pub fn resolve(a: &AScript, exclude: &BTreeSet<String>) -> (Script, ResolveStats
                     continue;
                 }
             }
-            let tags = tags_of(&model, &candidate);
+            let mut tags = tags_of(&model, &candidate);
+            {
+                let (mut c, mut m) = (ctx.clone(), model.clone());
+                for op in &candidate {
+                    tags.extend(c.tags(op));
+                    c.record(&m, op);
+                    m.apply(op);
+                }
+            }
             if let Some(t) = tags.iter().find(|t| exclude.contains(**t)) {
                 *stats.excluded.entry(t.to_string()).or_insert(0) += 1;
                 continue;
@@ -486,6 +566,7 @@ pub fn resolve(a: &AScript, exclude: &BTreeSet<String>) -> (Script, ResolveStats
                     }
                 }
                 classify(&model, op, &mut stats.labels);
+                ctx.record(&model, op);
                 model.apply(op);
             }
             ops.extend(candidate);
@@ -603,11 +684,16 @@ pub fn analyse(script: &Script) -> (BTreeSet<&'static str>, BTreeSet<&'static st
     let mut labels = BTreeSet::new();
     let mut tags = BTreeSet::new();
     for w in &script.windows {
+        let mut ctx = WindowCtx::default();
         for op in w {
             for t in tags_of(&model, std::slice::from_ref(op)) {
                 tags.insert(t);
             }
+            for t in ctx.tags(op) {
+                tags.insert(t);
+            }
             classify(&model, op, &mut labels);
+            ctx.record(&model, op);
             model.apply(op);
         }
     }
